@@ -845,7 +845,42 @@ def run(ctx, drv):
             check_include(ctx, drv, idir)
 
 
+def table_search(ctx, drv):
+    """texts aimed at the cells where the tables regenerated from the running `fortran_cleaner` /
+    `c_cleaner(directives_only=True)` differ from the Lean model's cells (harness/props/clean_diff.py)"""
+    from harness.props import clean_diff
+
+    if drv is None:
+        return 0
+    sus = clean_diff.f_suspects(drv)
+    if sus["error"]:
+        ctx.notes.append("search: the transition table cannot be regenerated: " + sus["error"][:300])
+        return 0
+    if sus["cells"]:
+        ctx.notes.append(f"search: code and model differ in {len(sus['cells'])}{'+' if len(sus['cells']) >= 40 else ''} "
+                         "table cell(s), e.g. " + " | ".join(sus["cells"][:4]))
+        ctx.extra["table_diff_cells"] = sus["cells"]
+    if not sus["targets"] and not sus["dtargets"]:
+        return 0
+    n = [0]
+
+    def items():
+        for t in clean_diff.f_biased_texts(sus):
+            if len(ctx.violations) >= 5:
+                return
+            n[0] += 1
+            yield (t, "search-table-cells", ".f90", False)
+
+    with FastScratch() as d:
+        check_many(ctx, drv, Impl(str(d)), items(), chunk=2000)
+    ctx.notes.append(f"search: {n[0]} texts aimed at {len(sus['targets'])} differing line(s) / {len(sus['dtargets'])} C-pass stack(s)")
+    return n[0]
+
+
 def search(ctx, drv):
+    table_search(ctx, drv)
+    if ctx.violations:
+        return
     run(ctx, drv)
 
 
